@@ -6,8 +6,14 @@ ids=("$@"); [ ${#ids[@]} -eq 0 ] && ids=($(ls seeded))
 for id in "${ids[@]}"; do
   P=${id%-*}
   case $id in
-    C03-3|C03-4) checks="C11" ;;
-    C01-3|C01-5) checks="C05" ;;
+    C03-3|C03-4|C03-6) checks="C11" ;;
+    C01-3|C01-5|C01-6|C03-7|C04-6) checks="C05" ;;
+    C03-9|C19-9) checks="C14" ;;
+    C05-8) checks="C19" ;;
+    C06-9) checks="C05" ;;
+    C08-8) checks="C02" ;;
+    C10-8|C15-8) checks="C12" ;;
+    C16-8) checks="C03" ;;
     *) checks="$P" ;;
   esac
   for c in $checks; do
